@@ -703,6 +703,7 @@ func checkC04(c *Ctx) {
 	checkInitPositionsSpine(c, "R7", initFn)
 	checkPreviousOccupied(c, "R5")
 	checkSeatManagerConstruction(c, "R1")
+	checkCreationWiring(c, "R1")
 }
 
 func keysOf(m map[string]bool) []string {
